@@ -69,6 +69,11 @@ def runCont (mode m : String) (toks : List String) : String :=
           ((toks.drop (2 * m)).take m).mapM String.toNat?, ((toks.drop (3 * m)).take m).mapM String.toNat?,
           (toks.drop (4 * m)).mapM parseDraw with
     | some par, some lens, some pops, some ng, some ds =>
+      -- nodes are numbered in pre-order: node 0 is the root and every other parent index precedes its child;
+      -- anything else (cycles, several roots, dangling parents) is refused rather than truncated
+      let wellNumbered := par.length == m && m > 0 && par.head? == some (-1) &&
+        (List.range m).all (fun j => j == 0 || (0 ≤ par.toArray[j]! && par.toArray[j]! < (j : Int)))
+      if !wellNumbered then "bad-op" else
       match (List.range m).find? (fun j => par.toArray[j]! == -1) with
       | none => "bad-op"
       | some root =>
